@@ -176,6 +176,39 @@ def k_hier(ctx, seqs, method, criterion, t, container=None, optimal=True):
     _cmp_hier(ctx, out, wl, wc, f"strings:{method}:{criterion}", len(seqs))
 
 
+def k_hier_metrics(ctx, seqs, weights, method, t, rows=None):
+    """The same collection clustered several times in a row with explicit metric objects of one class but other parameters
+    (and, for tables, Cdr3Levenshtein with other chain weights): each call is SciPy's clustering of *that* metric's distances."""
+    import numpy as np
+    import pandas as pd
+    import scipy.cluster.hierarchy as hc
+    import pyrepseq as prs
+    from pyrepseq.metric import WeightedLevenshtein
+    from pyrepseq.metric.tcr_metric import Cdr3Levenshtein
+    ctx.count("hier_metric_sequences")
+    ctx.nontriv(["hm", seqs, rows, weights, method, t])
+    ctx.sample("hier_metrics", {"seqs": (seqs or rows)[:6], "weights": weights, "method": method, "t": t})
+    for step, w in enumerate(weights):
+        if rows is None:
+            ins, dele, sub = w
+            d = np.array(_condensed(seqs, lambda a, b: O.wlev(a, b, ins, dele, sub)))
+            metric = WeightedLevenshtein(insertion_weight=ins, deletion_weight=dele, substitution_weight=sub)
+            x = list(seqs)
+            n = len(seqs)
+        else:
+            aw, bw = w
+            d = np.array(_condensed(rows, lambda r, q: aw * O.lev(r[0], q[0]) + bw * O.lev(r[1], q[1])))
+            metric = Cdr3Levenshtein(alpha_weight=aw, beta_weight=bw)
+            x = pd.DataFrame({"CDR3A": [r[0] for r in rows], "CDR3B": [r[1] for r in rows]})
+            n = len(rows)
+        wl = hc.linkage(d, method=method, optimal_ordering=True)
+        wc = hc.fcluster(wl, t=t, criterion="distance")
+        out = ctx.call(prs.hierarchical_clustering, x, metric=metric, linkage_kws=dict(method=method, optimal_ordering=True),
+                       cluster_kws=dict(t=t, criterion="distance"))
+        ctx.count("hier_explicit_metric_calls")
+        _cmp_hier(ctx, out, wl, wc, f"explicit-metric:step{min(step, 1)}", n)
+
+
 def _cmp_hier(ctx, out, wl, wc, key, n):
     import numpy as np
     if not out.ok:
@@ -269,11 +302,12 @@ def k_identity(ctx, seqs, t):
                       {"hierarchical": sorted(sorted(x) for x in hp), "graph": sorted(sorted(x) for x in gp)}, sorted(sorted(x) for x in op))
 
 
-KINDS = {"graph": k_graph, "hier": k_hier, "hier_table": k_hier_table, "identity": k_identity}
+KINDS = {"graph": k_graph, "hier": k_hier, "hier_table": k_hier_table, "identity": k_identity, "hier_metrics": k_hier_metrics}
 METHODS = ["cc", "fastgreedy", "multilevel", "leiden"]
 
 
 def generate(tier, seed):
+    cells0 = ["CAF", "CAAF", "CAW", "CF", "CASF", "CAAAF"]
     rng = random.Random(15000 + seed)
     thorough = tier == "thorough"
     us = [G.universe("AC", 3)] + ([G.universe("AC", 4), G.universe("ACD", 3)] if thorough else [])
@@ -321,6 +355,19 @@ def generate(tier, seed):
             cont = None
         yield "hier", {"seqs": seqs, "method": ["single", "complete", "average", "weighted"][i % 4], "criterion": ["distance", "maxclust"][i % 2],
                        "t": rng.choice([0, 1, 2, 3, 5, 1.5]) if i % 2 == 0 else rng.choice([1, 2, 3, 5]), "container": cont, "optimal": i % 3 != 0}, i < 30
+    # sequences a few hundred letters long: pairwise distances beyond 255
+    for i in range(8 if thorough else 2):
+        base = G.rand_string(rng, "ACGT", 280, 320)
+        other = G.rand_string(rng, "DEFH", 280, 320)
+        seqs = [base, G.mutate(rng, base, "ACGT", 3), other, G.mutate(rng, other, "DEFH", 4), G.mutate(rng, base, "ACGT", 6)]
+        yield "hier", {"seqs": seqs, "method": ["average", "single"][i % 2], "criterion": "distance", "t": [6, 20][i % 2]}, True
+    # one collection, several metric objects of the same class with other parameters, one after the other
+    for i in range(40 * TS if thorough else 6):
+        seqs = G.small_multiset(rng, pools[i % 3], 3, 12)
+        ws = [[1, 1, 1], [3, 3, 1], [1, 1, 1], [1, 2, 1]] if i % 2 == 0 else [[2, 2, 3], [1, 1, 1], [2, 2, 3]]
+        yield "hier_metrics", {"seqs": seqs, "weights": ws, "method": ["average", "single", "complete"][i % 3], "t": rng.choice([1, 2, 4])}, i < 4
+        rows = [[rng.choice(cells0), rng.choice(cells0)] for _ in range(rng.randint(3, 9))]
+        yield "hier_metrics", {"seqs": None, "rows": rows, "weights": [[1, 1], [3, 1], [1, 1], [1, 2]], "method": "average", "t": rng.choice([2, 4])}, i < 3
     cells = ["CAF", "CAAF", "CAW", "CF", "CASF", "CAAAF"]
     for i in range(300 * TS if thorough else 24):
         rows = [[rng.choice(cells), rng.choice(cells)] for _ in range(rng.randint(3, 14))]
